@@ -280,7 +280,7 @@ func r07_2(c *RC) {
 						problems = append(problems, "trial is on the wrong edge of the hint check for its hintMatch argument")
 					}
 					hintSeen = true
-				case strings.HasSuffix(id, "userIDWasAttempted"):
+				case strings.HasSuffix(id, "userIDWasAttempted") || isAttemptedPredicate(x):
 					if e.Idx != 1 {
 						problems = append(problems, "trial is on the true edge of userIDWasAttempted")
 					}
@@ -610,6 +610,15 @@ func r07_5(c *RC) {
 						}
 					}
 				})
+				// the handler itself records, immediately before succeeding:
+				// no failure return is reachable once the record is made
+				if !ok && cs.Fn.Name() == "onOpenSessionRequest" {
+					failAfter := reachableAvoiding(cs.Fn, cs.Instr, func(x ssa.Instruction) bool {
+						r, isRet := x.(*ssa.Return)
+						return isRet && len(r.Results) == 1 && !retIsNil(r, 0)
+					}, nil)
+					ok = failAfter == nil
+				}
 				if ok {
 					c.OKH(key, cs.Instr.Pos(), "stream: recorded only after onOpenSessionRequest returned nil (validated, session added, dispatched, handed over)")
 				} else {
@@ -1064,4 +1073,31 @@ func hintWrapperUserParam(fn *ssa.Function) int {
 		}
 	}
 	return -1
+}
+
+
+// isAttemptedPredicate: the call asks a side-effect-free boolean function of
+// the serveruser package about a user's id (the "already tried" set, whatever
+// it is called and whether it is a function or a method of the set).
+func isAttemptedPredicate(call *ssa.Call) bool {
+	sc := call.Common().StaticCallee()
+	if sc == nil || sc.Blocks == nil || relPkg(sc) != suPkg || sc.Signature.Results().Len() != 1 || !isBoolType(sc.Signature.Results().At(0).Type()) {
+		return false
+	}
+	pure := true
+	instrs(sc, func(_ *ssa.BasicBlock, _ int, in ssa.Instruction) {
+		switch in.(type) {
+		case *ssa.Store, *ssa.Call, *ssa.Go, *ssa.Send, *ssa.MapUpdate, *ssa.Defer, *ssa.Panic:
+			pure = false
+		}
+	})
+	if !pure {
+		return false
+	}
+	for _, a := range call.Common().Args {
+		if f := fieldOrigin(a); f != nil && f.Name() == "id" {
+			return true
+		}
+	}
+	return false
 }
